@@ -27,6 +27,7 @@ RULE = ('product document x rendering.  Document: 0-3 ordered pairs, 0-2 enums, 
         'the document alone; second sub-check compares two renderings of one document with each other.  Non-trivial = >=1 '
         'data row and >=3 distinct layout freedoms used in the file; distinct = distinct case hash.')
 RULE += '  Also: array lengths 10/12, files whose last line is not terminated, in-memory file objects (io.StringIO / io.BytesIO), binary handles opened for update.'
+RULE += ' Round 5: table pairs whose name+column strings coincide (SPEC.OBJID / SPECOBJ.ID).'
 ASSUMPTIONS = [
     'trailing comments contain no # and an even number of double quotes (the docstring of trailing_comment documents the rest as pathological); '
     'comments inside a typedef are letters, digits, blanks, commas, periods',
